@@ -136,6 +136,8 @@ class World:
         import dawgie.pl.schedule as sch  # pylint: disable=import-outside-toplevel
 
         self.reactor.reset()
+        self.reactor.rightNow = 0.0  # every history starts at the same virtual instant (replayable timers)
+        self.ctx.git_rev = 'rev0'  # (a reload of the previous history moved it)
         farm.clear()
         farm._reject.clear()  # pylint: disable=protected-access
         farm._repeat.clear()  # pylint: disable=protected-access
